@@ -99,6 +99,7 @@ type Block struct {
 	Modifies []string
 	Fuel     int
 	PanicsAssumed string
+	GhostInc []*Clause // ghost counter events: Callee field holds the counter name
 	AssumeKinds map[string]string // obligation kinds assumed in this unit, with the stated reason
 	LoopInvAll []*Clause // invariants of every loop (rules)
 	IsRule   bool
@@ -430,6 +431,19 @@ func parseBlocks(fset *token.FileSet, path string, src []byte, pkgPath string) (
 					return nil, fmt.Errorf("%s:%d: bad fuel", path, line)
 				}
 				cur.Fuel = n
+			case "ghost-inc":
+				name, rest2 := splitWord(rest)
+				kw, cond := splitWord(rest2)
+				if kw != "when" {
+					return nil, fmt.Errorf("%s:%d: ghost-inc <counter> when <condition>", path, line)
+				}
+				cl, err := mk(KRequires, cond, -1)
+				if err != nil {
+					return nil, err
+				}
+				cl.Callee = name
+				cl.Index = len(cur.GhostInc)
+				cur.GhostInc = append(cur.GhostInc, cl)
 			case "assume-kind":
 				k, reason := splitWord(rest)
 				if cur.AssumeKinds == nil {
@@ -724,6 +738,9 @@ func synthesize(blocks []*Block, counter *int) string {
 		for _, cl := range blk.LoopInvAll {
 			emit(blk, cl, nil, nil, false, "bool")
 		}
+		for _, cl := range blk.GhostInc {
+			emit(blk, cl, nil, nil, false, "bool")
+		}
 		if blk.Dec != nil {
 			emit(blk, blk.Dec, nil, nil, false, "int")
 		}
@@ -996,6 +1013,7 @@ func Load(repo string, patterns []string) (*Loaded, error) {
 		cls = append(cls, b.Post...)
 		cls = append(cls, b.PanicsIf...)
 		cls = append(cls, b.Callsite...)
+		cls = append(cls, b.GhostInc...)
 		cls = append(cls, b.Dec)
 		for _, ls := range b.Loops {
 			cls = append(cls, ls.Inv...)
@@ -1087,8 +1105,28 @@ func expandRules(ld *Loaded) error {
 						eb.Props = append(eb.Props, p)
 					}
 				}
-				if eb.PropKinds == nil && r.PropKinds != nil {
-					eb.PropKinds = r.PropKinds
+				if r.PropKinds != nil {
+					if eb.PropKinds == nil {
+						eb.PropKinds = map[string][]string{}
+					} else {
+						cp := map[string][]string{}
+						for k, v := range eb.PropKinds {
+							cp[k] = v
+						}
+						eb.PropKinds = cp
+					}
+					for k, v := range r.PropKinds {
+						if _, has := eb.PropKinds[k]; !has {
+							eb.PropKinds[k] = v
+						}
+					}
+				}
+				if eb.FromRule != nil && !r.Flags["post-all"] {
+					// an implicit block created by an earlier rule: later rules add their postconditions too
+					eb.Post = append(append([]*Clause{}, eb.Post...), r.Post...)
+					for i := range eb.Post {
+						eb.Post[i].Index = i
+					}
 				}
 				for i := range eb.Pre {
 					eb.Pre[i].Index = i
